@@ -42,7 +42,7 @@ EXPECT = [
 def _model_and_replay(ctx, rep, spec, cfg, label, workers, jobs, ignore=(), args=()):
     cases = os.path.join(ctx.tmp, "%s.cases" % cfg)
     ctx.model(spec, cfg, emit_to=cases, timeout=ctx.pick(900, 3000), xmx="6g", workers=workers, ignore_cov=ignore)
-    m = ctx.replay(rep, cases, label=label, timeout=ctx.pick(900, 5400), jobs=jobs, args=args)
+    m = ctx.replay(rep, cases, label=label, timeout=ctx.pick(900, 5400), jobs=jobs, args=list(args) + ([] if ctx.quick else ["--all-kinds"]))
     os.unlink(cases)
     return m
 
